@@ -525,7 +525,16 @@ def str_method(I, s: Any, name: str, pos: list, kw: dict, st: State) -> Iterator
             return
         yield st, fresh(f"str.{name}", z3.IntSort())
         return
-    if name in ("split", "rsplit", "splitlines", "partition"):
+    if name in ("split", "rsplit", "splitlines"):
+        # result: a non-empty list of strings (at least one part), otherwise uninterpreted
+        f = z3.Function(f"split!{id(z) % 100000}!{len(st.pc)}", z3.IntSort(), z3.StringSort())
+        ln = fresh("nparts", z3.IntSort())
+        st.pc.append(ln >= (0 if name == "splitlines" or not pos else 1))
+        out = SymSeq(f, "str", f"{name}(...)", ln)
+        out.fresh = True
+        yield st, out
+        return
+    if name == "partition":
         yield st, Opaque(f"str.{name}")
         return
     raise OutsideSubset(f"str.{name}")
@@ -575,6 +584,10 @@ def list_method(I, lst: SList, name: str, pos: list, kw: dict, st: State) -> Ite
         raise OutsideSubset(f"list.{name}")
 
 
+def _reclone(val, s2, st):
+    return val
+
+
 def dict_method(I, d: SDict, name: str, pos: list, kw: dict, st: State) -> Iterator[tuple[State, Any]]:
     if name == "get":
         k = pos[0]
@@ -602,6 +615,16 @@ def dict_method(I, d: SDict, name: str, pos: list, kw: dict, st: State) -> Itera
                     return
                 cur = nxt
             yield cur, default
+            return
+        if d.open and getattr(d, "sym_get", None) is not None:
+            for cond, val in d.sym_get(I, k, default):
+                if cond is True:
+                    yield st, val
+                    return
+                s2 = st.clone()
+                if I.feasible(s2, cond):
+                    s2.pc.append(cond)
+                    yield s2, _reclone(val, s2, st)
             return
         raise OutsideSubset("dict.get with a symbolic key on an open dict")
     if name in ("items", "keys", "values"):
